@@ -217,7 +217,7 @@ def r4_slate_bt(ctx):
     coh = astx.unique_def(f.node, "cohesion")
     ctx.check(coh is not None and astx.u(coh) == f"self.cohesion_parameters[{bloc}][{bloc}]", f, coh or f.node, "cohesion = the bloc's own cohesion", "", "cohesion lookup changed")
     bts = astx.unique_def(f.node, "blocs_to_sample")
-    good = isinstance(bts, ast.ListComp) and len(bts.generators) == 2 and astx.u(bts.generators[0].iter) == "self.blocs" and \
+    good = isinstance(bts, astx.LCOMP) and len(bts.generators) == 2 and astx.u(bts.generators[0].iter) == "self.blocs" and \
         astx.u(bts.generators[1].iter) == f"range(len(self.pref_intervals_by_bloc[{bloc}][{astx.u(bts.generators[0].target)}].non_zero_cands))" \
         and astx.u(bts.elt) == astx.u(bts.generators[0].target)
     ctx.check(good, f, bts or f.node, "a type lists each slate as many times as it has supported candidates", "", "blocs_to_sample changed")
